@@ -50,9 +50,9 @@ type pkgInfo struct {
 }
 
 var (
-	repo    string
-	outDir  string
-	digest  = map[string]string{}
+	repo     string
+	outDir   string
+	digest   = map[string]string{}
 	problems []string
 )
 
